@@ -418,10 +418,19 @@ def invalid_program(rng):
 
 
 UB = [
-    ('forth-ub-negative-count', lambda r: ['input', 'x0', '-1', 'x0', '#i->', 'stack', 'x0', 'pos']),
-    ('forth-ub-negative-rewind', lambda r: ['output', 'o0', 'int32', '-2', 'o0', 'rewind', 'o0', 'len']),
-    ('forth-ub-div-trap', lambda r: ['1', '63', 'lshift', '-1', r.choice(['/', 'mod', '/mod'])]),
-    ('forth-ub-div-trap', lambda r: ['-2147483648', '-1', r.choice(['/', 'mod', '/mod'])]),
     ('forth-ub-exit-in-do', lambda r: [':', 'f', '10', '0', 'do', 'i', 'i', '2', '=', 'if', 'exit', 'then', 'loop', ';', 'f', 'f']),
     ('forth-ub-exit-in-do', lambda r: [':', 'g', '7', '-1', 'if', 'exit', 'then', '8', ';', '3', '0', 'do', 'i', 'g', 'loop']),
+]
+
+# programs that were undefined behaviour / wrong before the fixes and are ordinary programs now
+FIXED_UB = [
+    lambda r: ['input', 'x0', '-1', 'x0', r.choice(['#i->', '#q->', '#b->', '#varint->', '#3bit->']), 'stack', 'x0', 'pos'],
+    lambda r: ['input', 'x0', 'output', 'o0', 'int32', '-1', 'x0', '#i->', 'o0', 'o0', 'len'],
+    lambda r: ['output', 'o0', 'int32', '5', 'o0', '<-', 'stack', '-2', 'o0', 'rewind', 'o0', 'len'],
+    lambda r: ['1', '63', 'lshift', '-1', r.choice(['/', 'mod', '/mod'])],
+    lambda r: ['-2147483648', '-1', r.choice(['/', 'mod', '/mod'])],
+    lambda r: ['1', r.choice(['62', '30']), 'lshift', 'dup', '1+', r.choice(['mod', '/mod', '/'])],
+    lambda r: ['1', r.choice(['40', '31', '63']), 'lshift', r.choice(['abs', 'negate abs'])],
+    lambda r: ['input', 'x0', 'x0', r.choice(['q->', 'Q->', '!q->', 'n->', 'N->', 'I->', '!I->']), 'stack'],
+    lambda r: ['1', '40', 'lshift', 'dup', '2', '+', 'swap', 'do', 'i', 'loop'],
 ]
